@@ -32,6 +32,29 @@ LexLeq(r, s, ks, asc) ==
 SortedBy(rows, ks, asc) == \A i \in 1..(Len(rows) - 1) : LexLeq(rows[i], rows[i + 1], ks, asc)
 
 (***************************************************************************)
+(* Where does a query define the row order and the index labels of its     *)
+(* result?  (dask-expr documents them as unspecified after hash joins,     *)
+(* shuffles and shuffle-based reductions; a sort fixes the order only up   *)
+(* to ties; reset_index restarts the labels in every partition.)           *)
+(* QueryGen uses the same two operators for the schema of generated        *)
+(* programs - there is one definition.                                     *)
+(***************************************************************************)
+RECURSIVE OrdDefined(_)
+OrdDefined(q) ==
+    IF q.op = "src" THEN TRUE
+    ELSE CASE q.op \in {"merge", "sort", "setindex", "dropdup", "nlargest", "unique", "valuecounts", "shuffle"} -> FALSE
+           [] q.op \in {"groupby", "reduce", "len"} -> TRUE
+           [] q.op = "combinefirst" -> FALSE        \* aligned through a hash shuffle when divisions are unknown
+           [] OTHER -> OrdDefined(q.c[1])
+RECURSIVE IdxDefined(_)
+IdxDefined(q) ==
+    IF q.op = "src" THEN TRUE
+    ELSE CASE q.op \in {"merge", "unique"} -> FALSE
+           [] q.op = "resetindex" -> FALSE
+           [] q.op \in {"groupby", "reduce", "len", "setindex", "valuecounts", "concat", "combinefirst"} -> TRUE
+           [] OTHER -> IdxDefined(q.c[1])
+
+(***************************************************************************)
 (* Acceptance of an observed table against a reference table.              *)
 (*   ord   the query defines the row order          (else: compare as bags)*)
 (*   idx   the query defines the index labels       (else: ignore them)    *)
